@@ -458,6 +458,8 @@ where
     let internal_tx_pub = internal_event_tx.clone();
 
     let node_config_arc = Arc::new(node_config);
+    // <scratch>/n<id>_<k>/db -> the node's data directory is the parent of db_root_dir
+    let node_dir: PathBuf = node_config_arc.cluster.db_root_dir.parent().map(|p| p.to_path_buf()).unwrap_or_else(|| node_config_arc.cluster.db_root_dir.clone());
     let is_learner = node_config_arc.is_learner();
     let my_role = if is_learner {
         RaftRole::Learner(Box::new(LearnerState::new(node_id, node_config_arc.clone())))
@@ -550,6 +552,8 @@ where
     net.register(
         node_id,
         Endpoint {
+            dir: node_dir.clone(),
+            image_dir: node_dir.parent().unwrap_or(&node_dir).join(format!("n{}_{}", node_id, inc + 1)),
             inc,
             event_tx: event_tx.clone(),
             cfg: node_config_arc.clone(),
